@@ -422,3 +422,33 @@ def rule_field_sem(ctx: RuleContext, p: Program, rid: str) -> None:
         fn = c.lookup('_create_node')
         ctx.check(cname not in problems, rid, f'models.internal.fields:{cname}._create_node / _remove_node', problems.get(cname) or 'node directly at its pivot; removal restores the store',
                   f'{problems.get(cname, "")}', fn.where if isinstance(fn, FuncInfo) else '', note=f'{n} scenarios in all')
+
+
+def rule_rep_edge(ctx: RuleContext, p: Program, rid: str) -> None:
+    """the extent of a repeated section: Repeated.first_token / last_token, interpreted"""
+    from .tokenstore import TS
+    ctx.rule(rid, 'Repeated.first_token / last_token, interpreted for 0, 1 and 3 items: the section starts at its place-holder and ends at the last token of '
+                  'its last item -- at the place-holder itself when it has no items (every pivot chain, deletion range and deep copy of a model with a '
+                  'repeated field rests on this extent)')
+    ts = TS(p)
+    cands = [c for c in p.class_by_name.get('Repeated', []) if not c.module.name.endswith('_test')]
+    if len(cands) != 1:
+        raise AnalysisError('REP-EDGE: class Repeated not found')
+    c = cands[0]
+    problem = None
+    for n in (0, 1, 3):
+        ph = possem.Obj('Tok', {'raw_text': ''}, 'the place-holder')
+        items = [possem.Obj('Item', {'first_token': possem.Obj('Tok', {}, f'item{i}.first'), 'last_token': possem.Obj('Tok', {}, f'item{i}.last')}, f'item{i}') for i in range(n)]
+        me = possem.Obj('Repeated', {'_placeholder': ph, 'placeholder': ph, 'items': list(items)}, 'the section')
+        for edge, want in (('first_token', ph), ('last_token', items[-1].f['last_token'] if items else ph)):
+            fn = p.method(c, edge, inherited=False)
+            try:
+                got = possem.PosInterp(ts, [], module=c.module).call_function(fn, [me], {})
+            except possem.Raised as ex:
+                problem = problem or f'{n} item(s): {edge} raises {ex}'
+                continue
+            if got is not want:
+                problem = problem or f'{n} item(s): {edge} is {getattr(got, "label", got)!r}, expected {want.label!r}'
+    fn = p.method(c, 'last_token', inherited=False)
+    ctx.check(problem is None, rid, 'models.internal.repeated:Repeated.first_token / last_token', problem or 'place-holder .. last token of the last item',
+              f'Repeated: {problem}', fn.where if isinstance(fn, FuncInfo) else '', note='0, 1, 3 items')
